@@ -26,7 +26,7 @@ def solve(A, b, Delta):
     # if we get here, the solution must be on the tr boundary 
     
     sigScale = np.mean( np.abs(sig) )
-    eps = 1e-12 * sigScale
+    eps = 1e-12 * np.where(sigScale > 0, sigScale, 1.0) # a zero matrix still needs a positive shift
     minSig = sig[0]
 
     # consider bounding the initial guess, see More' Sorenson paper
